@@ -238,9 +238,9 @@ func (c *checkCtx) runHarness(h HarnessSpec, workers int) {
 	e.Cfg.Workers = workers
 	// a harness never runs away: past its time budget the exploration stops and the check is
 	// inconclusive (unless a violation was already confirmed)
-	e.Cfg.Timeout = 15 * time.Minute
+	e.Cfg.Timeout = 5 * time.Minute
 	if c.tier == "thorough" {
-		e.Cfg.Timeout = 60 * time.Minute
+		e.Cfg.Timeout = 45 * time.Minute
 	}
 	if h.MaxPaths > 0 {
 		e.Cfg.MaxPaths = h.MaxPaths
@@ -428,6 +428,9 @@ func TestVerifReplay(t *testing.T) {
 	out := string(outb)
 	if in.Race && strings.Contains(out, "WARNING: DATA RACE") {
 		return true, out
+	}
+	if strings.HasPrefix(in.Label, "PANIC:fatal error: stack overflow") {
+		return strings.Contains(out, "fatal error: stack overflow") || strings.Contains(out, "goroutine stack exceeds"), out
 	}
 	if strings.HasPrefix(in.Label, "PANIC:") {
 		return strings.Contains(out, "VERIF_PANIC"), out
